@@ -91,7 +91,7 @@ def run(prop, tier, jkey, what, known_key, known_text, design, probes=()):
         "program_classes": stat, "model_impl_disagreements": len(diffs), "judge_failures": len(fails),
         "judge_failures_in_strict_programs": len(strict_fails), "known_finding_instances": len(known_hits),
     }
-    assumptions = ["proved core: BOOL and integer kinds, assignment, IF, CASE, FOR, WHILE, REPEAT, EXIT, CONTINUE, RETURN on program variables; REAL, strings, date/time, arrays, structs, FUNCTION/FB calls, frames are outside the model (tie-only or not covered)",
+    assumptions = ["proved core: BOOL and integer kinds, assignment, IF, CASE, FOR, WHILE, REPEAT, EXIT, CONTINUE, RETURN on program variables; REAL, strings, date/time, arrays, structs, FUNCTION / method calls, positional FB calls and nested instances are outside the model; named-argument FB calls are modelled by inlining on a flat store (Model/StCalls.v, f-cases) (tie-only or not covered)",
                    "T (Model/StTyping.v) is a strict subset of what the HIR checker accepts; the tie checks T p => the real compiler accepts p",
                    "OutOfFuel of the model stands for non-termination; generated loops are bounded"]
     # fixed probe programs of further recorded findings: (key, function -> (hit, what, source))
